@@ -582,11 +582,17 @@ func (s *BaseNodeService) reinitDKG(message storage.Message) error {
 		return nil
 	}
 
-	// temporarily fix cause we can't verify patch messages
-	// TODO: remove later
-	if !s.GetSkipCommKeysVerification() {
-		s.SetSkipCommKeysVerification(true)
-		defer s.SetSkipCommKeysVerification(false)
+	// The replayed messages are verified like any others, against the communication keys of the
+	// replayed proposal: a dump also holds whatever junk was posted to the board and refused by
+	// every node at the time. Only the self-confirmations that the 0.1.4 adaptation adds cannot be
+	// verified (they are made up by the tool and carry no signature).
+	isPatchMessage := func(msg storage.Message) bool {
+		if len(msg.Signature) != 0 || msg.SenderAddr != msg.RecipientAddr ||
+			fsm.Event(msg.Event) != dpf.EventDKGDealConfirmationReceived {
+			return false
+		}
+		var req requests.DKGProposalDealConfirmationRequest
+		return json.Unmarshal(msg.Data, &req) == nil && string(req.Deal) == "self-confirm"
 	}
 
 	operations := make([]*types.Operation, 0)
@@ -609,7 +615,14 @@ func (s *BaseNodeService) reinitDKG(message storage.Message) error {
 		// maximum inconvenience, and restart of the procedure,
 		// which is not very scary compared to the loss of compatibility.
 		if msg.RecipientAddr == "" || msg.RecipientAddr == s.GetUsername() {
+			skip := isPatchMessage(msg) && !s.GetSkipCommKeysVerification()
+			if skip {
+				s.SetSkipCommKeysVerification(true)
+			}
 			operation, err := s.processMessage(msg)
+			if skip {
+				s.SetSkipCommKeysVerification(false)
+			}
 			if err != nil {
 				s.Logger.Log("failed to process operation:  %w", err)
 			}
